@@ -483,6 +483,13 @@ Definition handle_iso_request (r:rnode) (s:slot) : rnode * list event :=
   if s_dst s =? 255 then respond_all (length (n_devs (rn r))) r (s_src s) rpgn 0
   else respond_iso_request r (s_src s) true rpgn i.
 
+(* ---------- group functions (PGN 126208) ---------- *)
+(* The NMEA group function handlers (N2kGroupFunction*.cpp) are a separate development (Model/GroupFnDefs.v).  Everything from here on
+   is parametrised by [gf], the reaction to a completely received PGN 126208 message: HandleGroupFunction(msg).  Theorems about
+   the node quantify over every gf that satisfies the stated hypotheses; the executable instance is supplied by the driver. *)
+Section WithGroupFunctions.
+Variable gf : rnode -> slot -> rnode * list event.
+
 (* ---------- HandleReceivedSystemMessage ---------- *)
 Definition handle_system (r:rnode) (s:slot) : rnode * list event :=
   let mode := n_mode (rn r) in
@@ -491,7 +498,8 @@ Definition handle_system (r:rnode) (s:slot) : rnode * list event :=
     if s_pgn s =? 59904 then handle_iso_request r s
     else if s_pgn s =? 60928 then handle_claim r (s_src s) (firstn (Z.to_nat (s_len s)) (s_data s))
     else if s_pgn s =? 65240 then handle_commanded r s
-    else (r, [])             (* 59392: nothing; 126208: group functions, not modelled here *)
+    else if s_pgn s =? 126208 then gf r s
+    else (r, [])             (* 59392: nothing *)
   else (r, []).
 
 (* ---------- pending information, heartbeat ---------- *)
@@ -656,6 +664,11 @@ Fixpoint rrun (r:rnode) (ops:list rop) : rnode * list (list event) :=
   | o :: rest => let '(r1, ev) := rstep r o in let '(r2, evs) := rrun r1 rest in (r2, ev :: evs)
   end.
 
+End WithGroupFunctions.
+
+(* the instance without group function support (N2K_NO_GROUP_FUNCTION_SUPPORT behaviour: PGN 126208 is delivered but not answered) *)
+Definition gf_none (r:rnode) (s:slot) : rnode * list event := (r, []).
+
 (* a node as constructed and configured before the first Open(): OpenScheduler.FromNow(0) at construction time t0 *)
 Definition cold_devx (w:bool) (rxl:list Z) : devx :=
   {| x_pend_claim := sched_disabled w; x_pend_prod := sched_disabled w; x_pend_conf := sched_disabled w;
@@ -667,12 +680,12 @@ Definition cold_node (w:bool) (mode t0 qmax nsl:Z) (pc:pgncfg) (devs:list dev) (
 
 (* the harness' prelude for cases that start from an opened node: 700 x (ParseMessages; clock + 1 ms) with an accepting driver,
    heartbeat switched off unless asked for, IsAddressClaimStarted for every device, then the clock is set to the case's origin *)
-Fixpoint prelude_polls (k:nat) (r:rnode) : rnode :=
-  match k with O => r | S k' => let '(r1, _) := poll r in prelude_polls k' (with_rn r1 (set_now (rn r1) (n_now (rn r1) + 1))) end.
+Fixpoint prelude_polls (gf:rnode -> slot -> rnode * list event) (k:nat) (r:rnode) : rnode :=
+  match k with O => r | S k' => let '(r1, _) := poll gf r in prelude_polls gf k' (with_rn r1 (set_now (rn r1) (n_now (rn r1) + 1))) end.
 Fixpoint claim_started_all (k:nat) (r:rnode) (i:Z) : rnode :=
   match k with O => r | S k' => claim_started_all k' (with_rn r (fst (claim_started (rn r) i))) (i+1) end.
-Definition prelude (r:rnode) (hb:bool) (t0:Z) : rnode :=
-  let r1 := prelude_polls 700 r in
-  let r2 := if hb then r1 else fst (rstep r1 (RSetHeartbeat 0 0 (-1))) in
+Definition prelude (gf:rnode -> slot -> rnode * list event) (r:rnode) (hb:bool) (t0:Z) : rnode :=
+  let r1 := prelude_polls gf 700 r in
+  let r2 := if hb then r1 else fst (rstep gf r1 (RSetHeartbeat 0 0 (-1))) in
   let r3 := claim_started_all (length (n_devs (rn r2))) r2 0 in
   with_rn r3 (set_now (rn r3) t0).
